@@ -1,6 +1,7 @@
 //! Correspondence harness: runs the *real* essential-base code on line-protocol cases.
 //! `harness run` reads cases on stdin (`<id> <family> <tokens…>`) and prints `<id> <result>`.
 mod fam_asm;
+mod fam_crypto;
 mod fam_vm;
 mod gen_short;
 mod orc_asm;
@@ -22,6 +23,9 @@ fn run_line(line: &str) -> String {
             return r;
         }
         if let Some(r) = fam_vm::run(fam, &mut t) {
+            return r;
+        }
+        if let Some(r) = fam_crypto::run(fam, &mut t) {
             return r;
         }
         if let Some(r) = orc_vm::run(fam, &mut t) {
